@@ -133,7 +133,7 @@ Definition glue_C17 (k : string) (a o : list value) : option verdict :=
             else None
         | _, _, _, _, _ => None end
     | _, _ => None end
-  else if is k "ntimed.hist" || is k "ntimed.wild" then
+  else if is k "ntimed.hist" || is k "ntimed.wild" || is k "ntimed.corner" then
     (* args: ops; observed: outputs of the filter, the reset points the harness
        used, outputs of new filters started at every reset point *)
     match a, o with
